@@ -41,7 +41,18 @@ type WinCfg struct {
 	YieldP   float64 `json:"yield_p"`
 	ISSPlace int     `json:"iss_place"` // C14: 0 none, 1 stack just below 2^31, 2 stack just below 2^32, 3/4 peer likewise
 	ISSBack  int     `json:"iss_back"`
+	ISSMid   bool    `json:"iss_mid_space,omitempty"` // the neutral twin of a C14 run: same placement, counted back from mid-space values
 }
+
+func neutralWin(raw json.RawMessage) json.RawMessage {
+	var c WinCfg
+	json.Unmarshal(raw, &c)
+	c.ISSMid = true
+	b, _ := json.Marshal(c)
+	return b
+}
+
+func (scWindow) NeutralISS(raw json.RawMessage) json.RawMessage { return neutralWin(raw) }
 
 func genWinCfg(rng *sim.Rand, tier string) WinCfg {
 	c := WinCfg{Role: rng.Intn(2), V6: rng.Chance(0.3), MTU: []int{576, 1280, 1500, 1500, 9000}[rng.Intn(5)],
@@ -136,10 +147,8 @@ func (w *winWorld) synOpts(echoTS uint32, stackHasTS bool) []byte {
 func (w *winWorld) establish() bool {
 	var peerISS uint32 = uint32(w.Rng.Uint64())
 	switch w.cfg.ISSPlace {
-	case 3:
-		peerISS = 1<<31 - uint32(w.cfg.ISSBack)
-	case 4:
-		peerISS = 0 - uint32(w.cfg.ISSBack)
+	case 3, 4:
+		peerISS = issBase(w.cfg.ISSPlace, w.cfg.ISSMid) - uint32(w.cfg.ISSBack)
 	}
 	wq := &waiter.Queue{}
 	if !w.cfg.Passive {
@@ -236,10 +245,8 @@ func (w *winWorld) applySock(ep tcpip.Endpoint) {
 func (w *winWorld) placeOwnISS() {
 	var t uint32
 	switch w.cfg.ISSPlace {
-	case 1:
-		t = 1<<31 - uint32(w.cfg.ISSBack)
-	case 2:
-		t = 0 - uint32(w.cfg.ISSBack)
+	case 1, 2:
+		t = issBase(w.cfg.ISSPlace, w.cfg.ISSMid) - uint32(w.cfg.ISSBack)
 	default:
 		return
 	}
@@ -666,7 +673,7 @@ func (scWindow) Run(t *testing.T, prop string, seed uint64, cfgRaw json.RawMessa
 		}
 		if w.Viol != nil {
 			stream := isStreamClass(w.Viol.Class)
-			if prop != "C14" && (prop == "C01") != stream {
+			if prop != "C14" && prop != "C06" && (prop == "C01") != stream {
 				// the stream oracle belongs to C01, everything else here to C04/C14
 				w.Probes["other_property_"+w.Viol.Class]++
 				w.Viol = nil
